@@ -99,6 +99,15 @@ def draw_collections(rng):
             C.append((l, b, l + w, b + h))
             ctrl = [(l, b), (l + w, b + h), (l + w + ext, b + h), (l + w + 2 * ext, b)]
             C.insert(rng.randrange(len(C) + 1), (l, b, l + w + 2 * ext, b + 0.75 * h, ctrl))
+        if rng.random() < 0.2:
+            # two boxes equal up to a few 1e-7 (segments that compare equal as values although one reaches further right), and a shape that
+            # begins in the gap between their right edges (F30)
+            l, b = float(rng.randint(-30, 10)), float(rng.randint(-30, 10))
+            w, h = float(rng.randint(500, 1500)), float(rng.randint(2, 20))
+            C, D = (A, B) if rng.random() < 0.5 else (B, A)
+            C.append((l, b, l + w, b + h))
+            C.append((l, b, l + w + 5e-7, b + h))
+            D.append((l + w + 3e-7, b, l + w + 400.0, b + h))
         return A, B          # x ties (boxes touching in x, zero-width boxes at one x) are part of the quantifier since F27
     return [], []
 
